@@ -49,6 +49,9 @@ pub struct Cfg {
     /// skip per-call model snapshots (only needed by crash / fault enumeration); for very long runs
     #[serde(default)]
     pub no_snapshots: bool,
+    /// allow clear() on sparse replicas (C08): an Err is tolerated, the outcome is resolved by observation
+    #[serde(default)]
+    pub replica_clear: bool,
 }
 
 impl Cfg {
@@ -64,6 +67,7 @@ impl Cfg {
             yield_mode: false,
             backend: crate::disk::Backend::Sim,
             no_snapshots: false,
+            replica_clear: false,
         }
     }
 }
@@ -851,7 +855,7 @@ impl World {
             return None;
         }
         // a sparse replica cannot locate the hole (needs tree nodes it lacks): never generated
-        if n != 0 && (m.held.len() as u64) < m.length {
+        if n != 0 && (m.held.len() as u64) < m.length && !self.cfg.replica_clear {
             return None;
         }
         let s = start % m.length;
@@ -882,6 +886,35 @@ impl World {
                 if e > self.nodes[n].model.length {
                     self.stats.probe("clear_beyond_length");
                 }
+            }
+            Res::Err(kind, msg)
+                if n != 0
+                    && self.cfg.replica_clear
+                    && (self.nodes[n].model.held.len() as u64) < self.nodes[n].model.length
+                    && !self.fault_fired(n) =>
+            {
+                // A sparse replica may lack the tree nodes needed to locate the hole in its data
+                // file: the call may fail. No property demands success here; C08 still demands that
+                // has() is exact, so the outcome is resolved by observation: all-or-nothing inside
+                // the range, nothing outside it (the post-step scan checks the rest).
+                self.end_call(c, false);
+                self.stats.probe("replica_clear_failed_tolerated");
+                let inside: Vec<u64> =
+                    self.nodes[n].model.held.range(s..e).map(|(k, _)| *k).collect();
+                let still: Vec<bool> = inside
+                    .iter()
+                    .map(|i| self.nodes[n].core.as_ref().map(|c| c.has(*i)).unwrap_or(false))
+                    .collect();
+                if still.iter().all(|b| !*b) {
+                    self.nodes[n].model.clear(s, e);
+                } else if !still.iter().all(|b| *b) {
+                    self.viol(
+                        "C08.has",
+                        format!("failed clear({s},{e}) on a replica ({kind}: {msg}) dropped only part of the range"),
+                    );
+                    self.nodes[n].model.clear(s, e);
+                }
+                let _ = self.drain(n);
             }
             other => {
                 // the clear may or may not have been logged: both models are admissible for C10
